@@ -1,4 +1,4 @@
-\* exhaustive: 3 L1 blocks, 3 events, 2 reorgs, 2 failures, chunk size in {1,2,10}
+\* exhaustive: 3 L1 blocks, 3 events, 2 reorgs, 2 failures, no restart, chunk size in {1,2,10}
 \* measured: 10 827 828 distinct / 40 808 749 generated states (5 min on 8 workers)
 CONSTANTS
   MaxBlocks = 3
